@@ -1,6 +1,6 @@
 PROP = {
-        "modules": ["Discv5Model.Props.C17", "Discv5Model.Props.C17Service"],
-        "lemma_modules": ["Discv5Model.Proofs.IpVoteLemmas"],
+        "modules": ["Discv5Model.Props.C17", "Discv5Model.Props.C17Service", "Discv5Model.Props.C17Connectivity"],
+        "lemma_modules": ["Discv5Model.Proofs.IpVoteLemmas", "Discv5Model.Proofs.ConnectivityLemmas"],
         "engines": [{"name": "ipvote", "quick": 1000, "thorough": 30000}, {"name": "service", "quick": 80, "thorough": 1500}, {"name": "service", "quick": 24, "thorough": 300, "model": False, "profile": "C17expiry"}],
         "rule": "ipvote engine: each case = one IpVote (minimum 2..6) driven by a vote sequence (voter, address) with "
                 "majority() compared after (almost) every insert: random walks over a small voter population and 2-5 "
